@@ -48,6 +48,9 @@ OPTSETS = [
     (None, {'interp_method': 'mono_pchip'}, {'parabolic_extrema': True}),
     ({'env_step_size': 0.5}, {'interp_method': 'pchip'}, {'pad_width': 3, 'parabolic_extrema': True}),
     ({'stop_method': 'rilling'}, {'interp_method': 'pchip'}, {'mag_pad_opts': {'mode': 'mean', 'stat_length': 2}}),
+    # an option given WITHOUT its companions: the companions keep their documented defaults on every route
+    ({'stop_method': 'fixed'}, None, None),
+    ({'stop_method': 'rilling', 'rilling_thresh': (0.2, 3.0, 0.2)}, None, None),
 ]
 POOLED_SETS = (2, 7, 8, 10, 17)
 VARIANTS = ('sift', 'mask_sift', 'ensemble_sift', 'complete_ensemble_sift', 'second_sift', 'second_mask',
@@ -135,6 +138,8 @@ def cases(tier, seed):
     for si in range(b['signals']):
         for oi in range(len(OPTSETS)):
             for v in VARIANTS:
+                if OPTSETS[oi][0] == {'stop_method': 'fixed'} and (si != 1 or v not in ('sift', 'second_sift')):
+                    continue        # 1000 iterations per extraction: the 32-sample signal and two variants only
                 for route in ROUTES:
                     if v.startswith('second') and route != 'kwargs':
                         continue
